@@ -166,6 +166,22 @@ def pOptDoc (fuel : Nat) : P (Option Doc) := fun ts => match ts with
     pure (some ⟨pre, root, post⟩, ts)
   | _ => none
 
+/-- `FRG I<k> item*` with items as inside a node: an input with several top-level elements -/
+def pFrag (fuel : Nat) : P Items := fun ts => do
+  let (ni, ts) ← pCount 'I' ts
+  let (items, ts) ← pRep (fun ts => match ts with
+    | "n" :: ts => do let (n, ts) ← pNode fuel ts; pure (some (.inl n), ts)
+    | "t" :: ts => some (some (.inr false), ts)
+    | "c" :: ts => some (some (.inr true), ts)
+    | "o" :: ts => some (none, ts)
+    | _ => none) ni ts
+  pure (mkItems items, ts)
+
+/-- `-`, `DOC …` or `FRG …` -/
+def pDocOrFrag (fuel : Nat) : P (Option Doc × Option Items) := fun ts => match ts with
+  | "FRG" :: ts => (pFrag fuel ts).map fun (is, ts) => ((none, some is), ts)
+  | _ => (pOptDoc fuel ts).map fun (d, ts) => ((d, none), ts)
+
 /-- implementation result: `OK <tree>` or `ER <display>` -/
 def pResult (fuel : Nat) : P (Except Name Elem) := fun ts => match ts with
   | "OK" :: ts => (pElem fuel ts).map fun (e, ts) => (.ok e, ts)
